@@ -444,7 +444,7 @@ def compare(ctx, op, a, b):
                 return mk(z3.Not(r.t), "bool")
             return not r
         ctx.raise_exc("TypeError", ("ordering not supported between these instances",))
-    if not has_sym(a) and not has_sym(b):
+    if not has_sym(a) and not has_sym(b) and not _has_ref(a) and not _has_ref(b):
         try:
             r = _NCMP[type(op)](a, b)
         except TypeError as e:
@@ -471,6 +471,8 @@ def compare(ctx, op, a, b):
                     return isinstance(op, ast.NotEq)
             t = z3.And(*conj) if conj else z3.BoolVal(True)
             return mk(t if isinstance(op, ast.Eq) else z3.Not(t), "bool")
+        if not has_sym(a) and not has_sym(b):
+            ctx.raise_exc("TypeError", ("ordering of tuples holding objects",))
         raise Unsupported("ordering of tuples with symbolic elements")
     ka, kb = kind_of(a), kind_of(b)
     if ka is None or kb is None:
@@ -507,6 +509,14 @@ def compare(ctx, op, a, b):
     t = {ast.Eq: lambda: ta == tb, ast.NotEq: lambda: ta != tb, ast.Lt: lambda: ta < tb,
          ast.LtE: lambda: ta <= tb, ast.Gt: lambda: ta > tb, ast.GtE: lambda: ta >= tb}[type(op)]()
     return mk(t, "bool")
+
+
+def _has_ref(v):
+    if isinstance(v, Ref):
+        return True
+    if isinstance(v, tuple):
+        return any(_has_ref(x) for x in v)
+    return False
 
 
 _NCMP = {ast.Eq: lambda a, b: a == b, ast.NotEq: lambda a, b: a != b, ast.Lt: lambda a, b: a < b,
